@@ -228,7 +228,10 @@ func VerifH_prefix_step() {
 	vnd.Unshare()
 
 	vnd.Assert(r != nil || stop, "C13 a built-in handler returns a nil response only together with stop")
-	vnd.Assert(vnd.HeldLocks() == 0, "C16 prefix plugin lock released")
+	vnd.AssertEngine(vnd.HeldLocks() == 0, "C16 prefix plugin lock released")
+	if vnd.Symbolic() {
+		vnd.AssertEngine(vnd.Acquisitions(&w.h.Mutex) <= len(pds), "C16 the prefix handler takes the plugin mutex at most once per IA_PD")
+	}
 	vnd.Assert(r == dhcpv6.DHCPv6(resp) && !stop, "C08 request with a client id is answered and passed on")
 	out := resp.Options.IAPD()
 	vnd.Assert(len(out) == len(pds), "C08 exactly one IA_PD per requested IA_PD")
